@@ -65,9 +65,10 @@ pub fn gen_lkind(g: &mut Sm, which: u64, nops: usize) -> LKind {
             scale: g.below(4) as u8,
             delta: *g.pick(&[1.1, 2.0, 5.0, 10.0, 20.0, 100.0]),
             backlog: *g.pick(&[0usize, 1, 3, 10, 100]),
+            wscale: if g.chance(1, 6) { *g.pick(&[1e-320, 1e-310, 1e250]) } else { 1.0 },
         },
         6 => LKind::Reservoir { k: g.range(1, 12) as usize },
-        7 => LKind::Lossy { width: g.range(1, 30) as usize },
+        7 => LKind::Lossy { width: if g.chance(1, 3) { g.range(31, 260) } else { g.range(1, 30) } as usize },
         _ => LKind::Heap { k: g.range(1, 6) as usize, w: *g.pick(&[1usize, 2, 3, 8, 64]), d: g.range(1, 3) as usize },
     }
 }
